@@ -315,7 +315,8 @@ Definition nsid : positive := 2%positive.     (* the per-node statement *)
 (* a node attempt as the oracle describes it: the node, the order in which node.Tasks was
    enumerated (candidates only), the order in which the victims queue popped *)
 Record attempt := mkAtt { at_node : positive; at_cands : list positive; at_order : list positive;
-                          at_qorder : list positive }.   (* pop order of the capacity plugin's own queue *)
+                          at_qorder : list positive;     (* pop order of the capacity plugin's own queue *)
+                          at_topo : bool }.              (* preempt with enableTopologyAwarePreemption *)
 
 (* what an attempt did (ghost record for the theorems; also used by nothing else) *)
 Record arec := mkRec {
@@ -382,10 +383,42 @@ Fixpoint evict_loop_rec (s : sess) (p : task) (avail : res)
     end
   end.
 
+(* topologyAwarePreempt (preempt.go 479-520, 546-555): the victims were chosen by a dry run on a CLONE of the
+   node (SelectVictimsOnNode: pop until the preemptor fits, then reprieve); prepareCandidate evicts them all
+   in the temporary statement, in that order, without looking at the node again.  The chosen list is an
+   oracle input: every one must be a victim of the vote, none twice *)
+Fixpoint evict_all (s : sess) (vs : list task) (order : list positive) (done : list task) : sess * list task * Z :=
+  match order with
+  | [] => (s, done, V_OK)
+  | x :: r =>
+    match find_task vs x with
+    | None => (s, done, V_ORDER)
+    | Some c =>
+      let '(s1, _) := stmt_evict_with eps s nsid c None in
+      evict_all s1 (filter (fun v => bool_decide (t_id v = x) = false) vs) r (done ++ [c])
+    end
+  end.
+
 Definition same_ids (l : list task) (ids : list positive) : bool :=
   bool_decide (map t_id l ≡ₚ ids).
 
 Definition sum_reqs (base : res) (l : list task) : res := fold_left (fun acc v => add acc (t_req v)) l base.
+
+(* the evictions of a node attempt: session, evicted tasks, does the preemptor fit now, verdict *)
+Definition do_evictions (k : akind) (s : sess) (p : task) (pq : positive) (a : attempt) (n : node) (vs : list task)
+    : sess * list task * bool * Z :=
+  if at_topo a && negb (is_reclaim k) then
+    (* the dry run found at least one victim and decided the preemptor fits without them: Pipeline follows
+       without a re-check *)
+    let '(s1, done, v) := evict_all s vs (at_order a) [] in
+    (s1, done, true, match at_order a with [] => V_ORDER | _ => v end)
+  else if is_reclaim k then
+    let '(s1, done, avail, v) := evict_loop_rec s p (future_idle n) vs (at_order a) [] in
+    (* reclaim.go 247-259: enough room by the running sum, and the queue still admits the task *)
+    (s1, done, less_equal eps (t_init p) avail DZero && queue_allocatable E s1 pq p, v)
+  else
+    let '(s1, done, v) := evict_loop_pre s pq p (at_node a) vs (at_order a) [] in
+    (s1, done, preemptor_fits s1 pq p (at_node a), v).
 
 (* the result of an attempt: session, assigned?, verdict, record *)
 Definition run_attempt (k : akind) (s : sess) (p : task) (pq : positive) (a : attempt)
@@ -402,14 +435,7 @@ Definition run_attempt (k : akind) (s : sess) (p : task) (pq : positive) (a : at
     (* the vote, with the capacity plugin's pop order of these candidates installed *)
     let vs := victims eps (with_qorder E (at_qorder a)) k s p cands in
     if negb (less_equal eps (t_init p) (sum_reqs (future_idle n) vs) DZero) then (s, false, V_VALIDATE, []) else
-    let '(s1, done, fits, v) :=
-      if is_reclaim k then
-        let '(s1, done, avail, v) := evict_loop_rec s p (future_idle n) vs (at_order a) [] in
-        (* reclaim.go 247-259: enough room by the running sum, and the queue still admits the task *)
-        (s1, done, less_equal eps (t_init p) avail DZero && queue_allocatable E s1 pq p, v)
-      else
-        let '(s1, done, v) := evict_loop_pre s pq p (at_node a) vs (at_order a) [] in
-        (s1, done, preemptor_fits s1 pq p (at_node a), v) in
+    let '(s1, done, fits, v) := do_evictions k s p pq a n vs in
     if negb (v =? V_OK) then (stmt_discard eps s1 nsid, false, v, []) else
     if fits then
       (* Statement.Pipeline fails when a handler reports Event.Err (rolled back by Pipeline itself);
